@@ -352,6 +352,43 @@ for _do, _da in ((6, 6), (6, 18), (18, 6)):
                opts={'abstract': {'pool-manager::calculate_stableswap_y': _abs_stableswap_y}}, replay=_replay_stable(_do, _da))(_ob_stable_units(_do, _da))
 
 
+
+# ---------------------------------------------------------------- deposit tolerance at handler level (the pool ratio BEFORE the deposit)
+
+from . import c02 as _c02   # noqa: E402
+
+
+def _replay_s3(m):
+    sc, idx = _c02._replay_provide_later(m)
+    sc['steps'][idx]['msg'] = {'provide_liquidity': {'pool_identifier': 'p1', 'liquidity_max_slippage': dec_j(m['tolerance'])}}
+    return sc, idx
+
+
+@obligation('C13', 'S3.deposit_executes_only_within_tolerance', entries=['execute', 'provide_liquidity', 'assert_slippage_tolerance'], kind='S',
+            statement='a two-asset deposit into a funded constant-product pool with liquidity_max_slippage = t executes only if the deposit ratio is within t of the pool ratio '
+                      'as it was BEFORE the deposit (both directions, 18-decimal floors)',
+            bounds='reserves, supply, deposits [1,2^128), tolerance any Decimal, real is_valid fees', covers=['ok'],
+            replay=generic_replay(lambda m: _replay_s3(m)))
+def s3_dep(I):
+    I.set_hint(dict(_c02.HINT, tolerance=10 ** 17))
+    x, y, S, b = _c02.setup_funded_pool(I)
+    a = I.sym('deposit_a', lo=1, hi=U128)
+    bb = I.sym('deposit_b', lo=1, hi=U128)
+    b.set('lp1', 'uA', a)
+    b.set('lp1', 'uB', bb)
+    t = I.sym('tolerance', hi=U128)
+    ch = Chain(I, _c02.CONTRACTS)
+    st, resp = ch.execute('lp1', PM, _c02.provide_msg('p1', liq_slip=Some(t)), [coin_v('uA', a), coin_v('uB', bb)])
+    I.observe('status', 'ok' if st == 'ok' else 'err')
+    observe_pool(I, 'p1')
+    observe_bank(I, b, [('lp1', 'uA'), ('lp1', 'uB'), ('lp1', _c02.LP), (PM, 'uA'), (PM, 'uB')], [_c02.LP])
+    if st != 'ok':
+        I.outcome('rejected')
+        return
+    I.cover('ok', dict(_c02.HINT, tolerance=10 ** 17))
+    I.check('tolerance_at_most_one', t <= E18)
+    I.check('executes_only_within_tolerance_of_the_pre_deposit_ratio', _within(I, a, bb, x, y, t))
+
 # ---------------------------------------------------------------- multi-hop minimum_receive (clause shared with C04's routed-swap obligations)
 from . import c04 as _c04   # noqa: E402
 share('C04', 'C13', 'H', lambda n: n in ('R1.route_hops_AB_BC', 'R1.route_hops_AB_BA_AB'))
